@@ -176,6 +176,10 @@ C16_pure(G) ==
           Fin(G, m).pure[i][1] = "evaluate_ctx_unchanged" => Fin(G, m).pure[i][2] = "same"
      \* the stored initial context is the same after every event
      /\ \A i, j \in 1..Len(Fin(G, m).ctx0) : Fin(G, m).ctx0[i] = Fin(G, m).ctx0[j]
+(* recorded context snapshots only grow: after every event the earlier list is a prefix of the later *)
+SnapshotsStable(G) ==
+  \A m \in 1..Len(G.members) : \A i \in 1..(Len(Fin(G, m).snaps) - 1) :
+     IsPrefix(Fin(G, m).snaps[i], Fin(G, m).snaps[i + 1])
 C16_hidden(G) ==
   \A m \in 1..Len(G.members) :
      /\ \A i \in 1..Len(Fin(G, m).hidden) : Fin(G, m).hidden[i][2] = << >>
@@ -205,7 +209,9 @@ Rel(G) ==
     [] G.kind = "inspect" -> FG("C15_reported", C15_reported(G))
     [] G.kind = "seed" -> FG("C19_same", C19_same(G))
     [] G.kind = "shorthand" -> FG("C20_same", C20_same(G)) \cup FG("C20_denote", C20_denote(G))
-    [] G.kind = "datapath" -> FG("C16_preserved", C16_preserved(G)) \cup FG("C16_pure", C16_pure(G)) \cup FG("C16_hidden", C16_hidden(G))
+    [] G.kind = "datapath" -> FG("C16_preserved", C16_preserved(G)) \cup FG("C16_pure", C16_pure(G) /\ SnapshotsStable(G))
+                              \cup FG("C16_hidden", C16_hidden(G))
+    [] G.kind = "snapshots" -> FG("C18_snapshots", SnapshotsStable(G))
     [] G.kind = "rerun" -> FG("C17_converge", C17_converge(G))
     [] OTHER -> {"unknown_group_kind"}
 
